@@ -31,9 +31,18 @@ BOUNDS = {
 CHUNK = 10
 
 
+def program_sets(tier):
+    return [("gen", dict()),
+            # rich signatures (positional-only, defaults, *rest, keyword-only, **kw, docstring) on small programs
+            ("sig", dict(size=1 if tier == "quick" else 2, sigs=("rich", "kwonly", "doc"), key=("c01sig", tier)))]
+
+
 def units(tier):
-    n = C.count_programs(tier)
-    return [("progs", lo, min(n, lo + CHUNK)) for lo in range(0, n, CHUNK)]
+    out = []
+    for name, kw in program_sets(tier):
+        n = C.count_programs(tier, **kw)
+        out += [(name, lo, min(n, lo + CHUNK)) for lo in range(0, n, CHUNK)]
+    return out
 
 
 def configs_for(info, tier):
@@ -184,8 +193,9 @@ def _differs(prog, x, driver, cfg, tier):
 
 def work(unit, tier):
     part = new_partial()
-    _, lo, hi = unit
-    for prog in C.programs_slice(tier, lo, hi):
+    name, lo, hi = unit
+    kw = dict(program_sets(tier))[name]
+    for prog in C.programs_slice(tier, lo, hi, **kw):
         check_program(prog, tier, part)
     return part
 
